@@ -9,4 +9,8 @@ import ExaModel.Props.C12
 #print axioms Exa.Props.C12.ka_gap
 #print axioms Exa.Props.C12.ka_fresh
 #print axioms Exa.Props.C12.ka_min_gap
+#print axioms Exa.Props.C12.outbound_traffic_is_invisible
+#print axioms Exa.Props.C12.ka_gap_with_outbound
+#print axioms Exa.Props.C12.negotiated_hold_is_min
+#print axioms Exa.Props.C12.zero_in_either_open_disables_timers
 #print axioms Exa.Props.C12.openwait_5_1
